@@ -144,6 +144,13 @@ def run_dbg(ctx):
     return l1_both(ctx, miri_shards=MIRI_SHARDS.get(ctx.pid, 0))
 
 
+def run_c15(ctx):
+    import l2
+    res = run_dbg(ctx)
+    l2.c15_cli(ctx, res)
+    return res
+
+
 def run_c17(ctx):
     import l2
     res = run_dbg(ctx)
@@ -235,7 +242,7 @@ PROPS = {
         "assumptions": DBG_ASSUME,
     },
     "C15": {
-        "run": run_dbg,
+        "run": run_c15,
         "level": "exploration",
         "design_ref": "DESIGN.md section 4 C15",
         "level_text": "Transition monitor: for every `eval <instruction>` in generated sessions (every register/immediate/base+offset form, label operands defined before and after the PC at every PC of the program, jumps, output traps, stack instructions) the snapshot at the prompt before is the start state and the snapshot after must equal the reference VM's execution of the ISA encoding with PC as it stands and labels denoting their absolute address; refused classes (BR*, RTI, HALT, unknown traps) and malformed texts (missing, surplus, wrong-kind operands, directives, two instructions, undefined labels, labels out of reach) must leave everything unchanged and the session alive.",
